@@ -10,7 +10,7 @@
 EXTENDS Docs, Json
 VARIABLES doc, level
 vars == <<doc, level>>
-Leaves == { [i |-> 1], [s |-> "txt"], [c |-> <<Q(1,2), Q(-3,1)>>], [c |-> <<R0, Q(2,1)>>], [f |-> Q(-5,4)] }
+Leaves == { [i |-> 1], [s |-> "txt"], [c |-> <<Q(1,2), Q(-3,1)>>], [c |-> <<R0, Q(2,1)>>], [f |-> Q(-5,4)], [c |-> C0], [i |-> 0] }
 Dict(S) == {[d |-> [a |-> x, b |-> y]] : x \in S, y \in S}
 List(S) == {[l |-> <<x, y>>] : x \in S, y \in S}
 D1 == Leaves \cup Dict(Leaves) \cup List(Leaves)
